@@ -2081,7 +2081,7 @@ bool CDNS::CdnsBlock::add_address_event_count(const GenericAddressEventCount& ga
     if (found != m_address_event_counts.end())
         found->second++;
     else
-        m_address_event_counts[aec] = 1;
+        m_address_event_counts.emplace(aec, 1);
 
     // Update block statistics
     if (stats)
@@ -2101,7 +2101,7 @@ bool CDNS::CdnsBlock::add_address_event_count(const AddressEventCount& aec,
     if (found != m_address_event_counts.end())
         found->second++;
     else
-        m_address_event_counts[aec] = 1;
+        m_address_event_counts.emplace(aec, 1);
 
     if (stats)
         m_block_statistics = stats;
@@ -2380,7 +2380,7 @@ void CDNS::CdnsBlockRead::read(CdnsDecoder& dec, std::vector<BlockParameters>& b
                 dec.read_array([this](CdnsDecoder& dec){
                     AddressEventCount tmp;
                     tmp.read(dec);
-                    m_address_event_counts[tmp] = tmp.ae_count;
+                    m_address_event_counts.emplace(tmp, tmp.ae_count);
                 });
                 break;
             case get_map_index(BlockMapIndex::malformed_messages):
